@@ -56,6 +56,40 @@ def build_hkv(force=False):
     return HKV
 
 
+_tools_built = set()
+
+
+def build_tool(name):
+    """Build harness/cmd/<name> (its own main package) to .build/<name> against /repo's working tree."""
+    out = os.path.join(BUILD, name)
+    if name in _tools_built:
+        return out
+    os.makedirs(BUILD, exist_ok=True)
+    hdir = os.path.join(VERIF, "harness")
+    shutil.copyfile(os.path.join(REPO, "go.sum"), os.path.join(hdir, "go.sum"))
+    p = subprocess.run(["go", "build", "-tags", "verif", "-o", out, "./cmd/" + name], cwd=hdir, env=goenv(),
+                       stdout=subprocess.PIPE, stderr=subprocess.STDOUT, text=True)
+    if p.returncode != 0:
+        raise Infra("build of harness tool %s failed:\n%s" % (name, p.stdout[-4000:]))
+    _tools_built.add(name)
+    return out
+
+
+def tool(name, args, timeout=1800, env=None, cwd=None, check=True):
+    """Run a harness tool built by build_tool; returns stdout.  Non-zero exit is an infrastructure failure."""
+    exe = build_tool(name)
+    e = goenv()
+    if env:
+        e.update(env)
+    try:
+        p = subprocess.run([exe] + list(args), stdout=subprocess.PIPE, stderr=subprocess.PIPE, text=True, timeout=timeout, env=e, cwd=cwd)
+    except subprocess.TimeoutExpired:
+        raise Infra("%s timeout: %s" % (name, " ".join(args)))
+    if check and p.returncode != 0:
+        raise Infra("%s %s failed (%d): %s" % (name, " ".join(args[:2]), p.returncode, p.stderr[-3000:]))
+    return p.stdout
+
+
 def build_repo_binary(out, tags="verif"):
     p = subprocess.run(["go", "build", "-tags", tags, "-o", out, "./cmd/hookaido"], cwd=REPO, env=goenv(),
                        stdout=subprocess.PIPE, stderr=subprocess.STDOUT, text=True)
